@@ -109,7 +109,7 @@ Example radius_ex_theorem :   (* the theorem instantiated on the second-copy cas
   let l := [mkB KShort [px 1; px 2; sl; px 3] false; mkB (KSide 0) [px 0] false] in
   forall e c, corner_value e (radius_process l) c = corner_value e l c.
 Proof. intros l e c. apply radius_collapse_keeps_corners_all. repeat constructor. Qed.
-From V Require Import C12.Nesting C12.NestingProofs.
+From V Require Import C12.Nesting C12.NestingProofs C12.NestingFree C12.NestingExpand.
 (* nesting lowering on the model: types a=1 b=2 div=3, class c1=1 *)
 Definition ty1 (t : Z) := XCons (Cp 0 false (Some t) SNil) XNil.
 Example nest_ex_wrap :   (* a b { div & {} } => div :is(a b) *)
@@ -148,6 +148,15 @@ Example nest_ex_refuted_witnesses :
   native_spec wL_parents wL_child = (0, 1, 1)%nat /\
   existsb (fun s => matches (tree_dom wN_doc) [] s 1%nat) (lower_expand wN_parents (LCons wN_child LNil)) = false.
 Proof. vm_compute. split; reflexivity. Qed.
+Example nest_ex_cross_theorem :   (* the cross-product theorem instantiated: a, b { & > & {} } on the three-element tree *)
+  forall x, (x < 3)%nat ->
+  existsb (fun s => matches (tree_dom nest_doc) [] s x)
+          (lower_expand (LCons (ty1 1) (LCons (ty1 2) LNil)) (LCons (XCons (Cp 0 true None SNil) (XCons (Cp 1 true None SNil) XNil)) LNil))
+  = matches (tree_dom nest_doc) (parent_set (tree_dom nest_doc) (LCons (ty1 1) (LCons (ty1 2) LNil)))
+            (inject_amp (XCons (Cp 0 true None SNil) (XCons (Cp 1 true None SNil) XNil))) x.
+Proof. intros x Hx. apply lower_expand_matching_tree; try reflexivity; [discriminate | exact Hx]. Qed.
+Example nest_ex_is_amp_free : has_amp_x (lower_is (LCons (ty1 1) (LCons (ty1 2) LNil)) (XCons (Cp 1 true None (SPc true (LCons amp1 LNil) SNil)) XNil)) = false.
+Proof. apply lower_is_amp_free. reflexivity. Qed.
 Example dedupe_ex :
   keep_last decl_eqb [mkDecl 1 1 true 0; mkDecl 1 2 false 0; mkDecl 1 1 false 0; mkDecl 1 1 true 0; mkDecl 1 2 false 0]
   = [mkDecl 1 1 false 0; mkDecl 1 1 true 0; mkDecl 1 2 false 0].
